@@ -1,7 +1,8 @@
 ---------------------------- MODULE TaskctlTrace ----------------------------
 (* Whole-binary trace validation: the unified event log of one `taskctl <pipeline>` process *)
 (* (internal/veriftrace, build tag verif) replayed through the actions of Taskctl.tla.       *)
-(*   cfg {n, deps, cls, ncmd, failAt, nvar, ctx, hb, ha, upFails}   st {s, v}   enter {s} / ret {s, failed} *)
+(*   cfg {n, deps, cls, ncmd, failAt, nvar, ctx, hb, ha, upFails, gr, inc}   st {s, v}   enter {s} / ret {s, failed} *)
+(*   nret {}  a nested Schedule call (of some including stage) returned                                        *)
 (*   RunEnter {s} / RunExit {s}     CmdStart {s, role} / CmdEnd {s, role, err}  (role tb cmd ta)             *)
 (*   CmdStart {c, role} / CmdEnd {c, role, err}  (role up cb ca down) done {err, final}      end {}          *)
 EXTENDS Taskctl, Json, TLCExt
@@ -14,7 +15,8 @@ Consume == l' = l + 1
 ToSet(q) == {q[i] : i \in DOMAIN q}
 
 Zs == [s \in Stages |-> 0]
-RunInit0 == /\ status = [s \in Stages |-> "W"] /\ gerr = FALSE
+RunInit0 == /\ status = [s \in Stages |-> "W"] /\ gerr = [g \in Graphs |-> FALSE]
+            /\ nl = [s \in Stages |-> "none"] /\ by = Zs
             /\ gpc = [s \in Stages |-> "none"] /\ rpc = [s \in Stages |-> "none"]
             /\ pt = [s \in Stages |-> "start"] /\ role = [s \in Stages |-> "none"]
             /\ done = Zs /\ rfail = [s \in Stages |-> FALSE] /\ ran = [s \in Stages |-> {}]
@@ -22,7 +24,7 @@ RunInit0 == /\ status = [s \in Stages |-> "W"] /\ gerr = FALSE
 TInit == /\ TLCSet(1, 1) /\ l = 1
          /\ deps = [s \in Stages |-> {}] /\ cls = [s \in Stages |-> "OK"] /\ ncmd = [s \in Stages |-> 1] /\ failAt = [s \in Stages |-> 1]
          /\ nvar = [s \in Stages |-> 1] /\ ctx = Zs /\ hb = [s \in Stages |-> "none"] /\ ha = [s \in Stages |-> "none"]
-         /\ upFails = [c \in Ctxs |-> FALSE]
+         /\ upFails = [c \in Ctxs |-> FALSE] /\ gr = Zs /\ inc = [s \in Stages |-> FALSE]
          /\ RunInit0 /\ loop = FALSE
 TReset == /\ Is("cfg") /\ (IF l = 1 THEN TRUE ELSE Log[l - 1].e = "end") /\ Ev.n = N
           /\ deps' = [s \in Stages |-> ToSet(Ev.deps[s])] /\ cls' = [s \in Stages |-> Ev.cls[s]]
@@ -30,7 +32,9 @@ TReset == /\ Is("cfg") /\ (IF l = 1 THEN TRUE ELSE Log[l - 1].e = "end") /\ Ev.n
           /\ nvar' = [s \in Stages |-> Ev.nvar[s]] /\ ctx' = [s \in Stages |-> Ev.ctx[s]]
           /\ hb' = [s \in Stages |-> Ev.hb[s]] /\ ha' = [s \in Stages |-> Ev.ha[s]]
           /\ upFails' = [c \in Ctxs |-> Ev.upFails[c]]
-          /\ status' = [s \in Stages |-> "W"] /\ gerr' = FALSE /\ loop' = TRUE
+          /\ gr' = [s \in Stages |-> Ev.gr[s]] /\ inc' = [s \in Stages |-> Ev.inc[s]]
+          /\ status' = [s \in Stages |-> "W"] /\ gerr' = [g \in Graphs |-> FALSE] /\ loop' = TRUE
+          /\ nl' = [s \in Stages |-> "none"] /\ by' = Zs
           /\ gpc' = [s \in Stages |-> "none"] /\ rpc' = [s \in Stages |-> "none"]
           /\ pt' = [s \in Stages |-> "start"] /\ role' = [s \in Stages |-> "none"]
           /\ done' = Zs /\ rfail' = [s \in Stages |-> FALSE] /\ ran' = [s \in Stages |-> {}]
@@ -40,7 +44,8 @@ TStLoop == /\ Is("st") /\ gpc[Ev.s] = "none" /\ Visit(Ev.s) /\ status'[Ev.s] = E
 TStDupCancel == /\ Is("st") /\ Ev.v = "C" /\ status[Ev.s] = "C" /\ Consume /\ UNCHANGED vars
 TStPublish == /\ Is("st") /\ gpc[Ev.s] = "back" /\ Publish(Ev.s) /\ status'[Ev.s] = Ev.v /\ Consume
 TEnter == /\ Is("enter") /\ StageEnter(Ev.s) /\ Consume
-TRet == /\ Is("ret") /\ StageRet(Ev.s) /\ Ev.failed = rfail[Ev.s] /\ Consume
+TRet == /\ Is("ret") /\ StageRet(Ev.s) /\ Ev.failed = rfail'[Ev.s] /\ Consume
+TNRet == /\ Is("nret") /\ (\E i \in Stages : NReturn(i)) /\ Consume
 TRunEnter == /\ Is("RunEnter") /\ RunEnter(Ev.s) /\ Consume
 TRunExit == /\ Is("RunExit") /\ RunExit(Ev.s) /\ Consume
 \* a job of a stage's run (task hooks and commands carry the stage's name): the recorded role must
@@ -58,13 +63,13 @@ TCtxEnd == /\ Is("CmdEnd") /\ Ev.role \in {"up", "cb", "ca"}
            /\ ((Ev.err # "nil") = (Ev.role = "up" /\ upFails[Ev.c])) /\ Consume
 TDownStart == /\ Is("CmdStart") /\ Ev.role = "down" /\ DownStart(Ev.c) /\ Consume
 TDownEnd == /\ Is("CmdEnd") /\ Ev.role = "down" /\ DownEnd(Ev.c) /\ Consume
-TDone == /\ Is("done") /\ loop /\ (\A s \in Stages : status[s] \notin {"W", "R"} /\ gpc[s] \in {"none", "fin"})
-         /\ gerr = Ev.err /\ (\A s \in Stages : status[s] = Ev.final[s])
+TDone == /\ Is("done") /\ loop /\ (\A s \in Stages : gr[s] = 0 => status[s] \notin {"W", "R"} /\ gpc[s] \in {"none", "fin"})
+         /\ gerr[0] = Ev.err /\ (\A s \in Stages : status[s] = Ev.final[s])
          /\ loop' = FALSE /\ Consume
-         /\ UNCHANGED <<cfgv, status, gerr, gpc, rpc, pt, role, done, rfail, ran, upst, dn>>
+         /\ UNCHANGED <<cfgv, status, gerr, nl, by, gpc, rpc, pt, role, done, rfail, ran, upst, dn>>
 \* the process has exited: every context that was used has been taken down
 TEnd == /\ Is("end") /\ AllOver /\ Consume /\ UNCHANGED vars
-TNext == TReset \/ TStLoop \/ TStDupCancel \/ TStPublish \/ TEnter \/ TRet \/ TRunEnter \/ TRunExit \/ TCmdStart \/ TCmdEnd
+TNext == TReset \/ TStLoop \/ TStDupCancel \/ TStPublish \/ TEnter \/ TRet \/ TNRet \/ TRunEnter \/ TRunExit \/ TCmdStart \/ TCmdEnd
          \/ TCtxStart \/ TCtxEnd \/ TDownStart \/ TDownEnd \/ TDone \/ TEnd
 HW == TLCSet(1, IF TLCGet(1) < l THEN l ELSE TLCGet(1))
 Accepted == TLCGet(1) = Len(Log) + 1
